@@ -88,3 +88,30 @@ SPECS["C19"] = dict(
              params=dict(quick=dict(tokens=1), thorough=dict(tokens=2)), witnesses=["salted", "legacy-salted", "error", "done"]),
     ],
 )
+
+SPECS["C01"] = dict(
+    level="model_checking",
+    outside="blocks longer than 2 (quick) / 3 (thorough) bytes; the HTTP server and mux routing; non-Directory drivers; Serialize-lock timing",
+    assumptions=["MD5 modelled as an uninterpreted function per input length with collision-freeness on the applications that occur",
+                 "stub volumes obey the Volume contract (Get copies min(len(buf), stored length) bytes; Put overwrites; Touch keeps)"],
+    runs=[
+        dict(name="get", pkg="services/keepstore", harness=["keepstore/c01_stub.go"], entry="GosymH_C01_get",
+             params=dict(quick=dict(maxlen=1, volumes=2), thorough=dict(maxlen=2, volumes=3)), witnesses=["get-ok", "get-error"]),
+        dict(name="put", pkg="services/keepstore", harness=["keepstore/c01_stub.go"], entry="GosymH_C01_put",
+             params=dict(quick=dict(maxlen=1, volumes=2), thorough=dict(maxlen=2, volumes=2)), witnesses=["put-ok", "put-error", "put-hash-mismatch"]),
+    ],
+)
+
+SPECS["C02"] = dict(
+    level="model_checking",
+    outside="power-loss / fsync durability (the property speaks of process death); blocks longer than 3 (quick) / 4 (thorough) bytes; other drivers",
+    assumptions=["filesystem model: calls are atomic and sequentially consistent, rename atomically replaces, a killed process loses nothing the kernel already has",
+                 "block name is a fixed 32-hex string and the body is assumed to hash to it (MD5 as uninterpreted function with collision-freeness)",
+                 "io.Copy into the temp file is modelled as writes of `fschunk` (2) bytes, each a separate kill point"],
+    runs=[
+        dict(name="crash", pkg="services/keepstore", harness=["keepstore/c02_crash.go", "keepstore/util.go"], entry="GosymH_C02_crash", replay="engine",
+             params=dict(quick=dict(bodylen=3, faults=0), thorough=dict(bodylen=4, faults=0)), witnesses=["killed", "acknowledged", "readable-after-restart", "done"]),
+        dict(name="crash-faults", pkg="services/keepstore", harness=["keepstore/c02_crash.go", "keepstore/util.go"], entry="GosymH_C02_crash", replay="engine",
+             params=dict(quick=dict(bodylen=2, faults=1), thorough=dict(bodylen=3, faults=2)), witnesses=["killed", "acknowledged", "done"]),
+    ],
+)
